@@ -82,6 +82,15 @@ def gen_cases(tier, seed):
                     i += 1
                     yield dict(kind="trend", n=n, degree=deg, icpt=icpt, fh=fh,
                                start=5 if (i + seed) % 2 else 0, fam=(seed + i) % 3)
+    # two live forecasters of the same kind, fitted in turn on different series: each must still
+    # return the forecast of ITS OWN training series (no state shared through the class/module)
+    for spec in (["naive", "last"], ["naive", "mean", 3], ["naive", "drift"], ["poly", 1, True],
+                 ["poly", 2, True], ["poly", 2, False], ["poly", 3, True], ["es"], ["theta"]):
+        for na, nb in ((9, 12), (12, 9), (10, 10)):
+            for fh in ([1, 2], [-1, 1], [3]):
+                if fh[0] < 0 and spec[0] in ("es", "theta"):
+                    continue
+                yield dict(kind="pair", spec=spec, na=na, nb=nb, fh=fh, fam=seed % 3)
     # statsmodels adapters
     ns = (12, 15) if tier == "quick" else (12, 14, 15, 17)
     fhs = [[1], [1, 2, 3], [2, 5]] if tier == "quick" else [[1], [1, 2, 3], [2, 5], [4], [1, 7]]
@@ -138,7 +147,58 @@ def run_case(case):
         return _naive(case, res)
     if k == "trend":
         return _trend(case, res)
+    if k == "pair":
+        return _pair(case, res)
     return _sm(case, res)
+
+
+def _pair_build(spec):
+    from sktime.forecasting.exp_smoothing import ExponentialSmoothing
+    from sktime.forecasting.naive import NaiveForecaster
+    from sktime.forecasting.theta import ThetaForecaster
+    from sktime.forecasting.trend import PolynomialTrendForecaster
+
+    if spec[0] == "naive":
+        return NaiveForecaster(strategy=spec[1], sp=spec[2] if len(spec) > 2 else 1)
+    if spec[0] == "poly":
+        return PolynomialTrendForecaster(degree=spec[1], with_intercept=spec[2])
+    if spec[0] == "es":
+        return ExponentialSmoothing(trend="add")
+    return ThetaForecaster(sp=1)
+
+
+def _pair(case, res):
+    spec, fh = case["spec"], case["fh"]
+    ya = _series(case["na"], case["fam"], 0)
+    yb = _series(case["nb"], (case["fam"] + 1) % 3, 4) * 1.5 + 7.0
+    alone = call(lambda: _pair_build(spec).fit(ya.copy()).predict(fh))
+
+    def interleaved():
+        a, b = _pair_build(spec), _pair_build(spec)
+        a.fit(ya.copy())
+        b.fit(yb.copy())
+        pa = a.predict(fh)
+        b.predict([1])
+        return pa, a.predict(fh)
+
+    both = call(interleaved)
+    tag = "pair:" + spec[0]
+    res.outcome("%s:%s:%s" % (tag, alone.kind, both.kind))
+    if not alone.ok:
+        return res
+    res.nt(("pair", str(spec), case["na"], case["nb"], tuple(fh)))
+    if not both.ok:
+        res.violate(tag + ":raises", "a second forecaster fitted on other data makes the first "
+                    "one fail", observed=both.brief())
+        return res
+    for got in both.value:
+        if list(got.index) != list(alone.value.index) or \
+                not close(got.values, alone.value.values, rtol=1e-9):
+            res.violate(tag + ":shared-state", "forecast changes when another forecaster of the "
+                        "same kind is fitted on a different series in between",
+                        expected=alone.value, observed=got)
+            return res
+    return res
 
 
 def _naive(case, res):
